@@ -73,11 +73,32 @@ var defects = []defect{
 	{"implementer field [String]! where [String!]! is declared", true},
 	{"argument-less interface field: implementer adds a required argument", true},
 	{"argument-less interface field: implementer adds an optional argument - valid", false},
+	{"nil field configuration in an object", true},
+	{"nil argument configuration on a field", true},
+	{"nil input field configuration", true},
+	{"nil enum value configuration", true},
+	{"nil interface among an object's interfaces", true},
+	{"typed nil object as a field type", true},
+	{"typed nil interface below a list as a field type", true},
+	{"typed nil enum as an argument type", true},
+	{"typed nil scalar below non-null as an input field type", true},
+	{"typed nil object as the mutation root", true},
+	{"nil directive in SchemaConfig.Directives", true},
+	{"custom directive with a nil argument configuration", true},
+	{"custom directive argument of an output type", true},
+	{"custom directive argument without a type", true},
+	{"custom directive named 9d", true},
+	{"custom directive - valid", false},
+	{"a nil type is appended", true},
+	{"a typed nil object is appended", true},
 }
 
 type built struct {
 	cfg   graphql.SchemaConfig
 	extra []graphql.Type // types to append afterwards (or to supply up front)
+	// nilExtra: a nil is among the appended types (supplying it up front is rejected by
+	// NewSchema, so the append-later = up-front comparison does not apply)
+	nilExtra bool
 }
 
 // build makes a fresh configuration with the given defects switched on.
@@ -100,6 +121,9 @@ func build(d map[int]bool, appendOrder int) built {
 	if on("enum value named") {
 		enumVals["4v"] = &graphql.EnumValueConfig{Value: 3}
 	}
+	if on("nil enum value configuration") {
+		enumVals["N"] = nil
+	}
 	if on("enum without values") {
 		enumVals = graphql.EnumValueConfigMap{}
 	}
@@ -108,6 +132,13 @@ func build(d map[int]bool, appendOrder int) built {
 	inFields := graphql.InputObjectConfigFieldMap{"a": &graphql.InputObjectFieldConfig{Type: graphql.Int}}
 	if on("input field named") {
 		inFields["2b"] = &graphql.InputObjectFieldConfig{Type: graphql.Int}
+	}
+	if on("nil input field configuration") {
+		inFields["nf"] = nil
+	}
+	if on("typed nil scalar below non-null as an input field type") {
+		var ns *graphql.Scalar
+		inFields["ns"] = &graphql.InputObjectFieldConfig{Type: graphql.NewNonNull(ns)}
 	}
 	if on("input object without fields") {
 		inFields = graphql.InputObjectConfigFieldMap{}
@@ -208,6 +239,24 @@ func build(d map[int]bool, appendOrder int) built {
 		if on("field with nil type") {
 			fs["nilt"] = &graphql.Field{Type: nil}
 		}
+		if on("nil field configuration in an object") {
+			fs["nilf"] = nil
+		}
+		if on("nil argument configuration on a field") {
+			fs["nila"] = &graphql.Field{Type: graphql.String, Args: graphql.FieldConfigArgument{"na": nil}}
+		}
+		if on("typed nil object as a field type") {
+			var no *graphql.Object
+			fs["tno"] = &graphql.Field{Type: no}
+		}
+		if on("typed nil interface below a list as a field type") {
+			var ni *graphql.Interface
+			fs["tni"] = &graphql.Field{Type: graphql.NewList(ni)}
+		}
+		if on("typed nil enum as an argument type") {
+			var ne *graphql.Enum
+			fs["tne"] = &graphql.Field{Type: graphql.String, Args: graphql.FieldConfigArgument{"e": &graphql.ArgumentConfig{Type: ne}}}
+		}
 		if on("NonNull of NonNull") {
 			fs["nn"] = &graphql.Field{Type: graphql.NewNonNull(graphql.NewNonNull(graphql.String))}
 		}
@@ -237,6 +286,9 @@ func build(d map[int]bool, appendOrder int) built {
 		out := []*graphql.Interface{I, K}
 		if on("object declares interface I twice") {
 			out = append(out, I)
+		}
+		if on("nil interface among an object's interfaces") {
+			out = append(out, nil)
 		}
 		return out
 	}
@@ -314,11 +366,55 @@ func build(d map[int]bool, appendOrder int) built {
 	if on("nil entry in SchemaConfig.Types") {
 		b.cfg.Types = append(b.cfg.Types, nil)
 	}
+	if on("typed nil object as the mutation root") {
+		var nm *graphql.Object
+		b.cfg.Mutation = nm
+	}
+	// directives: the specified ones plus at most one custom directive
+	dirCfg := graphql.DirectiveConfig{Name: "cd", Locations: []string{graphql.DirectiveLocationField}, Args: graphql.FieldConfigArgument{"a": &graphql.ArgumentConfig{Type: E}, "b": &graphql.ArgumentConfig{Type: graphql.NewList(In)}}}
+	custom := false
+	if on("custom directive - valid") {
+		custom = true
+	}
+	if on("custom directive with a nil argument configuration") {
+		custom = true
+		dirCfg.Args["n"] = nil
+	}
+	if on("custom directive argument of an output type") {
+		custom = true
+		dirCfg.Args["o"] = &graphql.ArgumentConfig{Type: P}
+	}
+	if on("custom directive argument without a type") {
+		custom = true
+		dirCfg.Args["t"] = &graphql.ArgumentConfig{}
+	}
+	if on("custom directive named 9d") {
+		custom = true
+		dirCfg.Name = "9d"
+	}
+	if custom {
+		b.cfg.Directives = append(append([]*graphql.Directive{}, graphql.SpecifiedDirectives...), graphql.NewDirective(dirCfg))
+	}
+	if on("nil directive in SchemaConfig.Directives") {
+		if b.cfg.Directives == nil {
+			b.cfg.Directives = append([]*graphql.Directive{}, graphql.SpecifiedDirectives...)
+		}
+		b.cfg.Directives = append(b.cfg.Directives, nil)
+	}
 	switch appendOrder {
 	case 1:
 		b.extra = []graphql.Type{X}
 	case 2:
 		b.extra = []graphql.Type{X, E} // E is already known: appending it again must be harmless
+	}
+	if on("a nil type is appended") {
+		b.extra = append(b.extra, nil)
+		b.nilExtra = true
+	}
+	if on("a typed nil object is appended") {
+		var no *graphql.Object
+		b.extra = append(b.extra, no)
+		b.nilExtra = true
 	}
 	return b
 }
@@ -497,6 +593,57 @@ func mschema(s *graphql.Schema) string {
 	}
 	if s.QueryType() == nil {
 		return "schema without a query root"
+	}
+	for _, d := range s.Directives() {
+		if d == nil {
+			return "the schema lists a nil directive"
+		}
+		if !nameRx.MatchString(d.Name) {
+			return fmt.Sprintf("directive @%s has an illegal name", d.Name)
+		}
+		for _, a := range d.Args {
+			if a == nil {
+				return fmt.Sprintf("directive @%s has a nil argument", d.Name)
+			}
+			if !nameRx.MatchString(a.Name()) {
+				return fmt.Sprintf("argument %s of directive @%s has an illegal name", a.Name(), d.Name)
+			}
+			// arguments have input types (the closure of the type map is demanded for the
+			// references the property lists; directive arguments are not among them)
+			if dd := checkKind(fmt.Sprintf("@%s(%s)", d.Name, a.Name()), a.Type); dd != "" {
+				return dd
+			}
+		}
+	}
+	return ""
+}
+
+// checkKind: the type of an argument is a non-nil input type (no closure demand).
+func checkKind(where string, t graphql.Type) string {
+	for {
+		switch tt := t.(type) {
+		case nil:
+			return where + ": nil type"
+		case *graphql.NonNull:
+			if tt == nil {
+				return where + ": nil type"
+			}
+			t = tt.OfType
+			continue
+		case *graphql.List:
+			if tt == nil {
+				return where + ": nil type"
+			}
+			t = tt.OfType
+			continue
+		}
+		break
+	}
+	if isNilType(t) {
+		return where + ": nil type"
+	}
+	if !graphql.IsInputType(t) {
+		return fmt.Sprintf("%s: %s is not an input type", where, t.Name())
 	}
 	return ""
 }
@@ -698,7 +845,7 @@ func execute(x *explore.X) (out outcome) {
 		return
 	}
 	// appending later gives the same schema as supplying the types up front
-	if len(b.extra) > 0 {
+	if len(b.extra) > 0 && !b.nilExtra {
 		b2 := build(d, appendOrder)
 		b2.cfg.Types = append(b2.cfg.Types, b2.extra...)
 		s2, err2 := graphql.NewSchema(b2.cfg)
@@ -715,7 +862,7 @@ func execute(x *explore.X) (out outcome) {
 
 func run(c *core.Ctx) {
 	k := c.Pick(2, 3)
-	c.R.Rule = "case = base configuration (objects, two interfaces with covariant fields, union, enum, scalar, input object, three roots) + every combination of <= k of 45 configuration defects/variants (duplicate and illegal names of every kind, empty sets, nil members / entries / types, every way of mis-implementing an interface incl. argument subtypes and list-vs-non-list, errors parked on roots and union members, NonNull of NonNull, types in wrong positions, thunks, cycles, missing root, duplicates) x 3 append histories; non-trivial = at least one defect"
+	c.R.Rule = "case = base configuration (objects, two interfaces with covariant fields, union, enum, scalar, input object, three roots) + every combination of <= k of 63 configuration defects/variants (duplicate and illegal names of every kind, empty sets, nil members / entries / types / field, argument, input-field and enum-value configurations, typed nil pointers in type positions and as a root, custom directives with nil / output-typed / untyped arguments and illegal names, a nil directive, nil and typed-nil appended types, every way of mis-implementing an interface incl. argument subtypes and list-vs-non-list, errors parked on roots and union members, NonNull of NonNull, types in wrong positions, thunks, cycles, missing root, duplicates) x 3 append histories; non-trivial = at least one defect"
 	c.R.Assumptions = []string{"M-schema: the consistency predicate of the property evaluated through TypeMap, Fields, Interfaces, Types, Values, PossibleTypes, IsPossibleType", "Go toolchain"}
 	c.R.Bounds["defects"] = k
 	e := c.Explorer(k)
